@@ -1,9 +1,11 @@
 //! GEN - bounded-exhaustive input enumerators. Every generated case is run on
 //! the real code inside `catch_unwind` and compared with a reference function.
 
+pub mod families;
 pub mod graphgen;
 pub mod hexgen;
 pub mod labelgen;
+pub mod proggen;
 pub mod treegen;
 
 use crate::report::{Failure, Outcome};
@@ -122,9 +124,11 @@ pub fn outcome(prop: &str, tier: &str, level: &str, rule: &str, acc: Acc, exhaus
 
 pub fn replay(engine: &str, v: &Value) -> i32 {
     match engine {
+        "c07" => crate::c07::replay(v),
         "graphgen" => graphgen::replay(v),
         "hexgen" => hexgen::replay(v),
         "labelgen" => labelgen::replay(v),
+        "proggen" => proggen::replay(v),
         "treegen" => treegen::replay(v),
         _ => {
             println!("unknown engine '{engine}' in replay file");
